@@ -44,7 +44,10 @@ func NewDictPattern(entries ...DictPatternEntry) DictPattern {
 func (p DictPattern) Bind(ctx context.Context, local Scope, value Value) (context.Context, Scope, error) {
 	dict, is := value.(Dict)
 	if !is {
-		return ctx, EmptyScope, fmt.Errorf("%s is not a dict", value)
+		// The empty dictionary is the empty set.
+		if set, isSet := value.(Set); !isSet || set.IsTrue() {
+			return ctx, EmptyScope, fmt.Errorf("%s is not a dict", value)
+		}
 	}
 
 	extraElements := make(map[int]int)
